@@ -646,14 +646,16 @@ MODELS_C16 = [
 ]
 
 MODELS_C17 = [
-    _m('Proxy spoof', 'a,b write envelopes with own / foreign (b,d) / absent source to b,d; 3 envelopes; buffer 2',
-       model_cfg(Writers='{"a","b"}', SrcKinds='{"own","other","none"}', SpoofNames='{"b","d"}', **_ABD)),
+    _m('Proxy spoof', 'a (quick) / a,b (thorough) write envelopes with own / foreign (b,d) / absent source to b,d; 3 envelopes; buffer 2',
+       dict(quick=model_cfg(Writers='{"a"}', SrcKinds='{"own","other","none"}', SpoofNames='{"b","d"}', **_ABD),
+            thorough=model_cfg(Writers='{"a","b"}', SrcKinds='{"own","other","none"}', SpoofNames='{"b","d"}', **_ABD))),
     _m('Proxy re-attach', 'b fails (read/write) and re-attaches at any time; a writes 3 envelopes to b,d (d: dial error)',
        model_cfg(**_REATT)),
     _m('Proxy cancel (liveness)', 'a->b, b may get stuck / fail to write, CtxCancel at any step; weak fairness; 2 envelopes',
        model_cfg(spec='FairSpec', inv='NoCrash', props='CancelTerminates', view=False, **_CANCEL)),
-    _m('Proxy cancel with dials (liveness)', 'a->d (dial on demand), CtxCancel at any step; weak fairness; 2 envelopes',
-       model_cfg(spec='FairSpec', inv='NoCrash', props='CancelTerminates', view=False, **_CANCELD)),
+    _m('Proxy cancel with dials (liveness)', 'a->d (dial on demand), CtxCancel at any step; weak fairness; 1 (quick) / 2 envelopes',
+       dict(quick=model_cfg(spec='FairSpec', inv='NoCrash', props='CancelTerminates', view=False, **dict(_CANCELD, MaxEnv='1')),
+            thorough=model_cfg(spec='FairSpec', inv='NoCrash', props='CancelTerminates', view=False, **_CANCELD))),
     _m('Proxy progress (liveness)', 'a,b write to b,d while b may get stuck / fail; HealthyProgress, DisconnectReported; '
        'weak fairness; 2 (quick) / 3 envelopes',
        dict(quick=model_cfg(spec='FairSpec', inv='NoCrash', props='HealthyProgress DisconnectReported', view=False, MaxEnv='2', **_LIVE),
